@@ -227,4 +227,322 @@ Section Live.
         * intros _. right. discriminate.
   Qed.
 
+
+  (* a change of the node part only *)
+  Lemma linv_node sk s s' :
+    LInvX sk s ->
+    s_readers s' = s_readers s ->
+    (s_next_rid s <= s_next_rid s')%N ->
+    (forall i r sg rid k, sk <> Some i -> nth_error (s_readers s) i = Some r -> rd_active r = Some (sg, rid, k) ->
+        live s rid -> live s' rid) ->
+    (forall x, In x (s_inactive s') -> (x < s_next_rid s')%N) ->
+    (forall q, In q (s_reqs s') -> (r_id q < s_next_rid s')%N) ->
+    (forall d, In d (s_deliveries s') -> (fst d < s_next_rid s')%N) ->
+    (forall d, In d (s_deliveries s') -> (exists n, snd d = SegData n) \/ snd d = SegErr EBadSegNum -> s_known s' = true) ->
+    LInvX sk s'.
+  Proof.
+    intros L Hrd Hnext Hlive Hin Hreq Hdel Hkn.
+    constructor; auto.
+    - rewrite Hrd. intros i r sg rid k Hi Ha. pose proof (l_active_fresh _ s L _ _ _ _ _ Hi Ha). lia.
+    - rewrite Hrd. apply (l_uniq _ s L).
+    - rewrite Hrd. apply (l_alive _ s L).
+    - rewrite Hrd. intros i r Hs Hi. pose proof (l_pending _ s L i r Hs Hi) as P. unfold reader_pending in *.
+      intros A. destruct (P A) as [P1 P2]. split; [|exact P2]. intros sg rid k Ac. eapply Hlive; eauto.
+    - rewrite Hrd. apply (l_finished _ s L).
+  Qed.
+
+  Lemma cancel_fields s rid :
+    let s' := fst (cancel s rid) in
+    s_next_rid s' = s_next_rid s /\ s_deliveries s' = s_deliveries s /\ s_known s' = s_known s /\
+    (forall x, In x (s_inactive s') -> x = rid \/ In x (s_inactive s)) /\
+    (forall q, In q (s_reqs s') -> In q (s_reqs s)) /\
+    (forall rid', live s rid' -> rid' <> rid -> live s' rid').
+  Proof.
+    cbn zeta. unfold cancel. destruct (nmem rid (s_inactive s)) eqn:M.
+    { cbn [fst]. split; [reflexivity|split; [reflexivity|split; [reflexivity|split; [auto|split; [auto|auto]]]]]. }
+    set (reqs := filter (fun r => negb (r_id r =? rid)%N) (s_reqs s)).
+    set (s1 := upd_node s reqs (s_active s) (s_next_fid s) (s_next_rid s) (rid :: s_inactive s) (s_deliveries s)).
+    assert (B1 : s_next_rid s1 = s_next_rid s /\ s_deliveries s1 = s_deliveries s /\ s_known s1 = s_known s /\
+                 (forall x, In x (s_inactive s1) -> x = rid \/ In x (s_inactive s)) /\
+                 (forall q, In q (s_reqs s1) -> In q (s_reqs s)) /\
+                 (forall rid', live s rid' -> rid' <> rid -> live s1 rid')).
+    { cbn [s1 upd_node s_next_rid s_deliveries s_known s_inactive s_reqs].
+      split; [reflexivity|split; [reflexivity|split; [reflexivity|split; [|split]]]].
+      - intros x [H|H]; auto.
+      - intros q Hq. apply filter_In in Hq. tauto.
+      - intros rid' [A B] NE. unfold live. cbn [s1 upd_node s_inactive s_reqs s_deliveries]. split.
+        + intros [E|E]; [congruence|contradiction].
+        + destruct B as [B|B]; [|now right]. left. apply in_map_iff in B. destruct B as (q & E & Hq).
+          apply in_map_iff. exists q. split; [exact E|]. apply filter_In. split; [exact Hq|].
+          apply negb_true_iff. apply N.eqb_neq. congruence. }
+    cbn [upd_node s_active]. fold s1. change (s_active s1) with (s_active s).
+    destruct (s_active s) as [[fid seg]|]; [|exact B1].
+    destruct (nmem seg (map r_seg reqs)); [exact B1|].
+    pose proof (start_new_fields (clear_active s1)) as F.
+    destruct (start_new (clear_active s1)) as [s2 o] eqn:E. cbn [fst] in *.
+    destruct F as (F1 & F2 & F3 & F4 & F5 & F6). destruct B1 as (C1 & C2 & C3 & C4 & C5 & C6).
+    cbn [clear_active upd_node s_reqs s_next_rid s_inactive s_deliveries s_known] in *.
+    rewrite F2, F4, F5. split; [exact C1|split; [exact C2|split; [exact C3|split; [|split]]]].
+    - rewrite F3. exact C4.
+    - rewrite F1. exact C5.
+    - intros rid' Lv NE. destruct (C6 rid' Lv NE) as [A B]. unfold live. rewrite F3, F1, F4. split; assumption.
+  Qed.
+
+  Lemma linv_append s x :
+    LInv s -> rd_active x = None -> (rd_result x <> None -> rd_alive x = false) ->
+    LInvX (Some (length (s_readers s)))
+      (mk_sys (s_reqs s) (s_active s) (s_next_fid s) (s_next_rid s) (s_inactive s) (s_deliveries s) (s_known s) (s_readers s ++ [x])).
+  Proof.
+    intros L Hx Hd. constructor; cbn [s_inactive s_reqs s_deliveries s_readers s_next_rid s_known].
+    - apply (l_inactive_fresh _ s L).
+    - apply (l_req_fresh _ s L).
+    - apply (l_del_fresh _ s L).
+    - intros i r sg rid k Hi Ha. apply nth_error_snoc in Hi. destruct Hi as [[_ Hi]|[_ E]]; [|subst; congruence].
+      eapply (l_active_fresh _ s L); eauto.
+    - intros i j ri rj sa sb rid ka kb Hi Hj Ai Aj.
+      apply nth_error_snoc in Hi. apply nth_error_snoc in Hj.
+      destruct Hi as [[_ Hi]|[_ E]]; [|subst; congruence]. destruct Hj as [[_ Hj]|[_ E]]; [|subst; congruence].
+      eapply (l_uniq _ s L); eauto.
+    - intros i r Hs Hi. apply nth_error_snoc in Hi. destruct Hi as [[_ Hi]|[E _]]; [|subst; congruence].
+      eapply (l_alive _ s L); eauto. discriminate.
+    - intros i r Hs Hi. apply nth_error_snoc in Hi. destruct Hi as [[_ Hi]|[E _]]; [|subst; congruence].
+      pose proof (l_pending _ s L i r ltac:(discriminate) Hi) as P. unfold reader_pending, live in *. exact P.
+    - apply (l_known _ s L).
+    - intros i r Hi Hr. apply nth_error_snoc in Hi. destruct Hi as [[_ Hi]|[_ E]]; [eapply (l_finished _ s L); eauto|].
+      subst. auto.
+  Qed.
+
+  Lemma linv_x_none s i : LInvX (Some i) s -> length (s_readers s) <= i -> LInv s.
+  Proof.
+    intros [] Hi. constructor; auto.
+    - intros j r _ Hj. eapply l_alive0; eauto. intros E. inversion E; subst.
+      assert (j < length (s_readers s)) by (apply nth_error_Some; congruence). lia.
+    - intros j r _ Hj. eapply l_pending0; eauto. intros E. inversion E; subst.
+      assert (j < length (s_readers s)) by (apply nth_error_Some; congruence). lia.
+  Qed.
+
+  Lemma linv_x_fill s i : LInvX (Some i) s ->
+    (forall r, nth_error (s_readers s) i = Some r -> (rd_result r = None -> rd_alive r = true) /\ reader_pending s r) -> LInv s.
+  Proof.
+    intros [] H. constructor; auto.
+    - intros j r _ Hj. destruct (Nat.eq_dec i j) as [E|NE]; [subst; now apply (H r Hj)|]. eapply l_alive0; eauto. congruence.
+    - intros j r _ Hj. destruct (Nat.eq_dec i j) as [E|NE]; [subst; now apply (H r Hj)|]. eapply l_pending0; eauto. congruence.
+  Qed.
+
+  (* the state after popping the delivery of handle rid for reader i *)
+  Lemma linv_pop s rid res rest i r sg k :
+    LInv s -> s_deliveries s = (rid, res) :: rest ->
+    nth_error (s_readers s) i = Some r -> rd_active r = Some (sg, rid, k) ->
+    LInvX (Some i) (upd_node s (s_reqs s) (s_active s) (s_next_fid s) (s_next_rid s) (rid :: s_inactive s) rest).
+  Proof.
+    intros L D Hi Ha.
+    assert (Hrid : (rid < s_next_rid s)%N) by (apply (l_del_fresh _ s L (rid, res)); rewrite D; now left).
+    apply (linv_node (Some i) s); [now apply linv_skip|reflexivity|cbn; lia| | | | |]; cbn [upd_node s_inactive s_reqs s_deliveries s_next_rid s_known].
+    - intros j rj sgj ridj kj Hs Hj Aj [A B].
+      assert (ridj <> rid) as NE.
+      { intros E. subst ridj. apply Hs. f_equal. eapply (l_uniq _ s L); eauto. }
+      split; [intros [E|E]; [congruence|contradiction]|].
+      destruct B as [B|B]; [now left|right]. rewrite D in B. cbn in B. destruct B as [B|B]; [congruence|exact B].
+    - intros x [E|E]; [subst; exact Hrid|now apply (l_inactive_fresh _ s L)].
+    - apply (l_req_fresh _ s L).
+    - intros d Hd. apply (l_del_fresh _ s L). rewrite D. now right.
+    - intros d Hd. apply (l_known _ s L). rewrite D. now right.
+  Qed.
+
+  (* replacing reader i by a record without an active request *)
+  Lemma linv_set_idle s i r r' :
+    LInvX (Some i) s -> nth_error (s_readers s) i = Some r ->
+    rd_active r' = None -> (rd_result r' = None -> rd_alive r' = true) -> (rd_result r' <> None -> rd_alive r' = false) ->
+    (rd_result r' = None -> rd_hungry r' = true -> rd_mfn r' > 0) ->
+    LInv (set_reader s i r').
+  Proof.
+    intros L Hi Ha Hal Hd Hp. apply (linv_update s s i r r' L Hi); auto; try lia.
+    - apply (l_inactive_fresh _ s L).
+    - apply (l_req_fresh _ s L).
+    - apply (l_del_fresh _ s L).
+    - apply (l_known _ s L).
+    - intros sg rid k E. congruence.
+    - unfold reader_pending. intros A. split; [intros sg rid k E; congruence|]. intros B. left. auto.
+  Qed.
+
+  Lemma fired_linv s i r k res react :
+    LInvX (Some i) s -> nth_error (s_readers s) i = Some r -> rd_alive r = true -> rd_result r = None ->
+    LInv (fst (fired s i r k res react)).
+  Proof.
+    intros L Hi Hal Hres. unfold reader_fired.
+    assert (M : forall r1, rd_active r1 = None -> rd_alive r1 = true -> rd_result r1 = None -> LInv (fst (mfn s i r1))).
+    { intros r1 A1 Al1 R1. apply (mfn_linv s i r r1 L Hi); auto; try congruence. }
+    destruct res as [segnum|e].
+    - destruct (overlap _ _ _ _) as [[o0 o1]|].
+      + destruct (N.eqb o0 _).
+        * destruct react.
+          -- destruct (mfn s i _) as [s2 o] eqn:E. cbn [fst]. change s2 with (fst (s2, o)). rewrite <- E.
+             apply M; cbn; auto.
+          -- cbn [fst]. eapply linv_set_idle; eauto; cbn; auto; congruence.
+          -- cbn [fst]. eapply linv_set_idle; eauto; cbn; auto; discriminate.
+        * destruct k; [cbn [fst rd_error]; eapply linv_set_idle; eauto; cbn; auto; discriminate|apply M; cbn; auto].
+      + destruct k; [cbn [fst rd_error]; eapply linv_set_idle; eauto; cbn; auto; discriminate|apply M; cbn; auto].
+    - destruct e, k; try (cbn [fst rd_error]; eapply linv_set_idle; eauto; cbn; auto; discriminate).
+      apply M; cbn; auto.
+  Qed.
+
+  (* ---- every guarded step keeps the invariant ------------------------------------------ *)
+  Lemma linv_init : LInv sinit.
+  Proof.
+    constructor; cbn [sinit s_inactive s_reqs s_deliveries s_readers s_next_rid s_known].
+    - intros x [].
+    - intros q [].
+    - intros d [].
+    - intros i r sg rid k H. destruct i; discriminate.
+    - intros i j ri rj sa sb rid ka kb H. destruct i; discriminate.
+    - intros i r _ H. destruct i; discriminate.
+    - intros i r _ H. destruct i; discriminate.
+    - intros d [].
+    - intros i r H. destruct i; discriminate.
+  Qed.
+
+  Lemma finish_linv s fid seg res :
+    LInv s -> s_active s = Some (fid, seg) ->
+    ((exists n, res = SegData n) \/ res = SegErr EBadSegNum -> s_known s = true) ->
+    LInv (fst (start_new (extract (clear_active s) seg res))).
+  Proof.
+    intros L A Hk.
+    assert (Lv1 : forall rid, live s rid -> live (extract (clear_active s) seg res) rid).
+    { intros rid Lv. apply extract_live. now apply clear_active_live. }
+    destruct (start_new_fields (extract (clear_active s) seg res)) as (F1 & F2 & F3 & F4 & F5 & F6).
+    destruct (extract_fields (clear_active s) seg res) as (E1 & E2 & E3 & E4 & E5 & E6 & E7).
+    set (s1 := extract (clear_active s) seg res) in *. set (s2 := fst (start_new s1)) in *.
+    cbn [clear_active upd_node s_active s_next_rid s_inactive s_known s_readers s_reqs s_deliveries] in E1, E2, E3, E4, E5, E6, E7.
+    apply (linv_node None s s2 L).
+    - now rewrite F6, E5.
+    - rewrite F2, E2. lia.
+    - intros i r sg rid k _ Hi Ha Lv. specialize (Lv1 rid Lv). unfold live in *. rewrite F3, F1, F4. exact Lv1.
+    - rewrite F3, F2, E3, E2. apply (l_inactive_fresh _ s L).
+    - rewrite F1, F2, E6, E2. intros q Hq. apply filter_In in Hq. apply (l_req_fresh _ s L). tauto.
+    - rewrite F4, F2, E7, E2. intros d Hd. apply in_app_or in Hd. destruct Hd as [Hd|Hd]; [now apply (l_del_fresh _ s L)|].
+      apply in_map_iff in Hd. destruct Hd as (q & E & Hq). subst d. cbn. apply filter_In in Hq. apply (l_req_fresh _ s L). tauto.
+    - rewrite F4, F5, E7, E4. intros d Hd Hx. apply in_app_or in Hd. destruct Hd as [Hd|Hd]; [now apply (l_known _ s L d)|].
+      apply in_map_iff in Hd. destruct Hd as (q & E & Hq). subst d. cbn in Hx. now apply Hk.
+  Qed.
+
+  Lemma step_linv s e : LInv s -> sev_ok s e -> LInv (fst (step s e)).
+  Proof.
+    intros L Hok. destruct e as [off sz|i|i|i|i| |e|ok e|react]; cbn [sstep].
+    - (* read *)
+      destruct (N.eqb (read_clip (fsize ct) off sz) 0).
+      + cbn [fst]. eapply linv_x_fill.
+        * apply (linv_append s _ L); cbn; auto.
+        * cbn [s_readers]. intros r Hr. rewrite nth_error_app2, Nat.sub_diag in Hr by lia. cbn in Hr. inversion Hr; subst.
+          unfold reader_pending. cbn. split; discriminate.
+      + set (r := mk_reader off (read_clip (fsize ct) off sz) true true None [] None 0 off (read_clip (fsize ct) off sz)).
+        assert (LX : LInvX (Some (length (s_readers s))) (mk_sys (s_reqs s) (s_active s) (s_next_fid s) (s_next_rid s) (s_inactive s) (s_deliveries s) (s_known s) (s_readers s ++ [r]))).
+        { apply (linv_append s r L); cbn; auto. congruence. }
+        apply (mfn_linv _ (length (s_readers s)) r r LX); cbn; auto; try congruence.
+        now rewrite nth_error_app2, Nat.sub_diag by lia.
+    - (* pause *)
+      destruct (nth_error _ i) as [r|] eqn:E; [|exact L]. destruct (rd_result r) eqn:Rr; [exact L|]. cbn [fst].
+      pose proof (l_pending _ s L i r ltac:(discriminate) E Rr) as [P1 P2].
+      apply (linv_update s s i r _ (linv_skip s i L) E).
+      + reflexivity.
+      + lia.
+      + auto.
+      + apply (l_inactive_fresh _ s L).
+      + apply (l_req_fresh _ s L).
+      + apply (l_del_fresh _ s L).
+      + apply (l_known _ s L).
+      + cbn. intros sg rid k Ea. split; [eapply (l_active_fresh _ s L); eauto|now left].
+      + cbn. intros _. eapply (l_alive _ s L); eauto. discriminate.
+      + cbn. congruence.
+      + unfold reader_pending. cbn. intros _. split; [exact P1|discriminate].
+    - (* resume *)
+      destruct (nth_error _ i) as [r|] eqn:E; [|exact L]. destruct (rd_result r) eqn:Rr; [exact L|]. cbn [fst].
+      pose proof (l_pending _ s L i r ltac:(discriminate) E Rr) as [P1 P2].
+      apply (linv_update s s i r _ (linv_skip s i L) E).
+      + reflexivity.
+      + lia.
+      + auto.
+      + apply (l_inactive_fresh _ s L).
+      + apply (l_req_fresh _ s L).
+      + apply (l_del_fresh _ s L).
+      + apply (l_known _ s L).
+      + cbn. intros sg rid k Ea. split; [eapply (l_active_fresh _ s L); eauto|now left].
+      + cbn. intros _. eapply (l_alive _ s L); eauto. discriminate.
+      + cbn. congruence.
+      + unfold reader_pending. cbn. intros _. split; [exact P1|]. intros _. left. lia.
+    - (* stop *)
+      destruct (nth_error _ i) as [r|] eqn:E; [|exact L]. destruct (rd_result r) eqn:Rr; [exact L|].
+      destruct (rd_active r) as [[[sg rid] k]|] eqn:Ea.
+      + destruct (cancel_fields s rid) as (C1 & C2 & C3 & C4 & C5 & C6). pose proof (cancel_readers s rid) as C7.
+        destruct (cancel s rid) as [s1 o]. cbn [fst] in *.
+        apply (linv_update s s1 i r _ (linv_skip s i L) E).
+        * exact C7.
+        * lia.
+        * intros rid' Lv Hne. apply C6; [exact Lv|]. intros Er. subst. apply (Hne sg k). exact Ea.
+        * rewrite C1. intros x Hx. destruct (C4 x Hx) as [Ex|Hx']; [subst; eapply (l_active_fresh _ s L); eauto|now apply (l_inactive_fresh _ s L)].
+        * rewrite C1. intros q Hq. apply (l_req_fresh _ s L). auto.
+        * rewrite C1, C2. apply (l_del_fresh _ s L).
+        * rewrite C2, C3. apply (l_known _ s L).
+        * cbn. intros sg' rid' k' X. discriminate.
+        * cbn. discriminate.
+        * cbn. intros _. split; reflexivity.
+        * unfold reader_pending. cbn. discriminate.
+      + cbn [fst]. apply (linv_update s s i r _ (linv_skip s i L) E).
+        * reflexivity.
+        * lia.
+        * auto.
+        * apply (l_inactive_fresh _ s L).
+        * apply (l_req_fresh _ s L).
+        * apply (l_del_fresh _ s L).
+        * apply (l_known _ s L).
+        * cbn. intros sg' rid' k' X. discriminate.
+        * cbn. discriminate.
+        * cbn. intros _. split; reflexivity.
+        * unfold reader_pending. cbn. discriminate.
+    - (* a queued _maybe_fetch_next *)
+      destruct (nth_error _ i) as [r|] eqn:E; [|exact L]. destruct (rd_mfn r) as [|n] eqn:Mf; [exact L|].
+      apply (mfn_linv s i r _ (linv_skip s i L) E); cbn [rd_set_mfn rd_active rd_result rd_alive]; auto.
+      * intros Rr. eapply (l_alive _ s L); eauto. discriminate.
+      * apply (l_finished _ s L i r E).
+      * intros Rr. apply (l_pending _ s L i r ltac:(discriminate) E Rr).
+    - (* learn *)
+      cbn [fst]. destruct L. constructor; auto.
+    - (* fetch_failed *)
+      destruct (s_active s) as [[fid seg]|] eqn:A; [|exact L].
+      apply (finish_linv s fid seg (SegErr e) L A). intros [[n X]|X]; [discriminate|]. inversion X; subst. exact Hok.
+    - (* process_blocks *)
+      destruct (s_active s) as [[fid seg]|] eqn:A; [|exact L]. cbn [sev_ok] in Hok.
+      destruct ok; apply (finish_linv s fid seg _ L A); intros _; exact Hok.
+    - (* a queued _deliver *)
+      destruct (s_deliveries s) as [|[rid res] rest] eqn:D; [exact L|].
+      cbn [upd_node s_inactive s_reqs s_active s_next_fid s_next_rid s_readers].
+      assert (Hrid : (rid < s_next_rid s)%N) by (apply (l_del_fresh _ s L (rid, res)); rewrite D; now left).
+      destruct (nmem rid (s_inactive s)) eqn:M.
+      + cbn [fst]. apply nmem_In in M.
+        apply (linv_node None s); auto; cbn [upd_node s_inactive s_reqs s_deliveries s_next_rid s_known s_readers]; try lia.
+        * intros i r sg rid' k _ Hi Ha [A B]. split; [exact A|]. destruct B as [B|B]; [now left|right].
+          rewrite D in B. cbn in B. destruct B as [B|B]; [subst; contradiction|exact B].
+        * apply (l_inactive_fresh _ s L).
+        * apply (l_req_fresh _ s L).
+        * intros d Hd. apply (l_del_fresh _ s L). rewrite D. now right.
+        * intros d Hd. apply (l_known _ s L). rewrite D. now right.
+      + destruct (find_reader rid (s_readers s) 0) as [[[i r] k]|] eqn:F.
+        * destruct (find_reader_spec _ _ _ _ _ _ F) as (_ & Nth & (sg & Ea)). rewrite Nat.sub_0_r in Nth.
+          pose proof (linv_pop s rid res rest i r sg k L D Nth Ea) as LX.
+          set (s2 := upd_node _ _ _ _ _ _ rest) in *.
+          assert (Rr : rd_result r = None).
+          { destruct (rd_result r) eqn:Rr; [|reflexivity]. destruct (l_finished _ s L i r Nth) as [X _]; congruence. }
+          pose proof (fired_linv s2 i r k res react LX Nth) as X.
+          destruct (fired s2 i r k res react) as [s3 o]. apply X; [|exact Rr].
+          eapply (l_alive _ s L); eauto. discriminate.
+        * cbn [fst]. apply (linv_node None s); auto; cbn [upd_node s_inactive s_reqs s_deliveries s_next_rid s_known s_readers]; try lia.
+          -- intros i r sg rid' k _ Hi Ha [A B].
+             assert (rid' <> rid) as NE by (intros Er; subst; eapply (find_reader_none rid _ _ F); eauto).
+             split; [intros [Er|Er]; [congruence|contradiction]|]. destruct B as [B|B]; [now left|right].
+             rewrite D in B. cbn in B. destruct B as [B|B]; [congruence|exact B].
+          -- intros x [Ex|Ex]; [subst; exact Hrid|now apply (l_inactive_fresh _ s L)].
+          -- apply (l_req_fresh _ s L).
+          -- intros d Hd. apply (l_del_fresh _ s L). rewrite D. now right.
+          -- intros d Hd. apply (l_known _ s L). rewrite D. now right.
+  Qed.
+
 End Live.
